@@ -37,8 +37,8 @@ MAX_REPORT = 16
 @st.composite
 def cases(draw, tier):
     d = D(draw)
-    if d.p(3):
-        return gen.scotland_prior_stage_case(d)
+    if d.p(4):
+        return gen.scotland_prior_stage_case(d) if d.p(60) else gen.scotland_threeway_case(d)
     rules = model.STATUTORY + ('wigm',)
     case = draw(gen.election_cases(tier=tier, rules=rules, default_options=True, chains=True))
     if case['rule'] == 'wigm':
